@@ -111,14 +111,29 @@ JudgeDebRaw(rec) ==
 \* signature that covers that package verifies.
 JudgeLife(rec) ==
     LET ops == rec.in.ops
-        PkgOf(h) == rec.in.pkgs[ops[CHOOSE j \in 1..Len(ops) : ops[j].op = "load" /\ ops[j].h = h].p]
+        PkgOf(h) == rec.in.pkgs[ops[CHOOSE j \in 1..Len(ops) : ops[j].op \in {"load", "loadfile"} /\ ops[j].h = h].p]
+        \* does the package a handle was loaded from carry a signature by k1 over its three members, in order?
+        Signed(pkg) == \E m \in 1..Len(pkg) : pkg[m].role = "sig" /\ Verifies(pkg[m], <<1, 2, 3>>, {"k1"}, {})
+        ClosedBefore(i, h) == \E j \in 1..(i - 1) : ops[j].op \in {"close", "closer"} /\ ops[j].h = h
         Name(h) == FieldText(PkgOf(h)[2].fields, <<80, 97, 99, 107, 97, 103, 101>>)
+        \* the xz dictionary limit in force at step i (process-wide; 0 = default) and whether a package needs it
+        DictOps(i) == {j \in 1..(i - 1) : ops[j].op = "dict"}
+        LimitAt(i) == IF DictOps(i) = {} THEN 0 ELSE ops[CHOOSE j \in DictOps(i) : \A q \in DictOps(i) : q <= j].p
+        IsXz(pkg) == pkg[2].comp = "xz" \/ pkg[3].comp = "xz"
+        Loads(i) == ~IsXz(PkgOf(ops[i].h)) \/ LimitAt(i) = 0 \/ LimitAt(i) >= 262144
         Bad(i) == LET o == rec.steps[i]  h == ops[i].h IN
                   \/ o.panic
-                  \/ CASE ops[i].op = "load"  -> ~(o.ok /\ o.package = Name(h))
+                  \/ CASE ops[i].op = "dict"  -> FALSE
+                       [] ops[i].op = "load" /\ ~Loads(i) -> o.ok          \* a dictionary beyond the limit in force is refused
+                       [] ops[i].op \in {"load", "loadfile"}  -> ~(o.ok /\ o.package = Name(h))
+                       [] ops[i].op \in {"closer", "replace"} -> FALSE
                        [] ops[i].op = "close" -> FALSE
                        [] ops[i].op = "data"  -> ~(o.ok /\ o.package = Name(h) /\ TarAgrees([tar |-> o.tar], PkgOf(h)[3].files))
-                       [] ops[i].op = "check" -> ~(o.ok /\ o.signer = "k1" /\ o.package = Name(h))
+                       \* the verdict is about the members that were LOADED: never a success for a package that was not signed,
+                       \* whatever its path holds now; a success for a signed one as long as the handle is open
+                       [] ops[i].op = "check" -> IF ~Signed(PkgOf(h)) THEN o.ok
+                                                 ELSE IF ClosedBefore(i, h) THEN o.ok /\ o.signer # "k1"
+                                                 ELSE ~(o.ok /\ o.signer = "k1" /\ o.package = Name(h))
         bad == {i \in 1..Len(ops) : Bad(i)}
         first == CHOOSE i \in bad : \A j \in bad : i <= j
     IN IF ~rec.built THEN V(TRUE, "aux", "")
